@@ -83,6 +83,8 @@ THETA = np.array([[3.3, 0.1, 1.3, 2.1, 0.0], [11.7, 0.6, 3.9, 5.5, 0.0], [57.0, 
 
 
 def run_case(case, part):
+    if case.get("kind") == "plot":
+        return check_plot(case, part)
     import astropy.units as u
     import thejoker as tj
     from thejoker.data_helpers import validate_prepare_data
@@ -171,6 +173,74 @@ def run_case(case, part):
                            expected=ref, observed=ll)
 
 
+def check_plot(case, part):
+    """the plotting helpers must subtract each survey's OWN offset from that survey's epochs (list or dict input)"""
+    import matplotlib
+
+    matplotlib.use("Agg")
+    import matplotlib.pyplot as plt
+    import astropy.units as u
+    import thejoker as tj
+    from thejoker.data_helpers import validate_prepare_data
+    from thejoker.plot import plot_phase_fold, plot_rv_curves
+
+    srcs, tt, vv, ee = _sources(case)
+    S = len(srcs)
+    data, listpos = _container(case, srcs)
+    n = len(tt)
+    # which offset parameter belongs to which survey (the sampler's own convention, verified by the other cases)
+    all_data, ids, trend_M = validate_prepare_data(data, case["poly_trend"], S - 1)
+    v_m = np.array(all_data.rv.to_value(u.km / u.s))
+    owner = [case["assign"][int(np.argmin(np.abs(np.array(vv) - x)))] for x in v_m.tolist()]
+    col_of = {}
+    for k in range(S):
+        rows = [i for i in range(n) if owner[i] == k]
+        pat = tuple(np.array(trend_M)[rows[0], 1:S])
+        col_of[k] = pat.index(1.0) + 1 if sum(pat) == 1.0 else 0
+    offs = {c: 7.0 * c + 1.5 for c in range(1, S)}  # dv0_c
+    nrow = case["n_rows"]
+    smp = tj.JokerSamples(t_ref=all_data.t_ref, poly_trend=case["poly_trend"], n_offsets=S - 1)
+    smp["P"] = np.full(nrow, 11.3) * u.day
+    smp["e"] = np.full(nrow, 0.2)
+    smp["omega"] = np.full(nrow, 1.1) * u.rad
+    smp["M0"] = np.full(nrow, 0.7) * u.rad
+    smp["s"] = np.zeros(nrow) * u.km / u.s
+    smp["K"] = np.full(nrow, 3.0) * u.km / u.s
+    smp["v0"] = np.full(nrow, 1.0) * u.km / u.s
+    spread = np.linspace(-0.5, 0.5, nrow) if nrow > 1 else np.zeros(1)
+    for c in range(1, S):
+        smp[f"dv0_{c}"] = (offs[c] + spread * c) * u.km / u.s
+    if case["poly_trend"] == 2:
+        smp["v1"] = np.full(nrow, 0.05) * u.km / u.s / u.day
+    fig, ax = plt.subplots()
+    try:
+        if case["func"] == "phase_fold":
+            plot_phase_fold(smp, data=data, ax=ax, remove_trend=case["remove_trend"], show_s_errorbar=False)
+            y = None
+            for cont in ax.containers:
+                y = np.asarray(cont[0].get_ydata())
+                break
+            if y is None:
+                y = np.asarray(ax.lines[0].get_ydata())
+            trend = 0.05 * (np.array(tt) - float(all_data.t_ref.tcb.mjd)) + 1.0 if case["poly_trend"] == 2 else np.full(n, 1.0)
+            want = np.array([vv[j] - (offs[col_of[case["assign"][j]]] if col_of[case["assign"][j]] else 0.0) - (trend[j] if case["remove_trend"] else 0.0) for j in range(n)])
+        else:
+            plot_rv_curves(smp, data=data, ax=ax, apply_mean_v0_offset=True)
+            y = None
+            for cont in ax.containers:
+                y = np.asarray(cont[0].get_ydata())
+            want = np.array([vv[j] - (offs[col_of[case["assign"][j]]] if col_of[case["assign"][j]] else 0.0) for j in range(n)])
+    except Exception as e:
+        plt.close(fig)
+        part.violation(case, f"{case['func']} raised {type(e).__name__}: {str(e)[:200]}")
+        return
+    plt.close(fig)
+    part.record(case, outcome=(tuple(np.round(np.sort(want), 6)),), nontrivial=True)
+    if y is None or len(y) != n or not np.allclose(np.sort(y), np.sort(want), rtol=1e-9, atol=1e-9):
+        part.violation(case, f"{case['func']}: the plotted velocities are not each survey's velocities minus that survey's own offset",
+                       expected=np.sort(want), observed=None if y is None else np.sort(y))
+
+
 def shard(cases):
     part = core.Part()
     for c in cases:
@@ -207,6 +277,15 @@ def build_cases(quick, seed):
                             for order in itertools.permutations(range(S)):
                                 cases.append(dict(assign=list(f), order=list(order), form=form, scramble=False, jit=jit,
                                                   ties=[[a, b]], lnl=(form == "list" and n <= 3)))
+    # plotting helpers (anchored in plot.py): interleaved surveys, list / dict input in sorted and unsorted key order
+    for S in (2, 3):
+        for assign in ([0, 1, 0, 1, 1, 0][: 4 + S - 2] if S == 2 else [0, 1, 2, 1, 0, 2], [S - 1 - k % S for k in range(6)]):
+            for order in itertools.permutations(range(S)):
+                for form in ("list", "dict_str", "dict_int"):
+                    for func, opts in (("phase_fold", dict(remove_trend=True)), ("phase_fold", dict(remove_trend=False)), ("rv_curves", dict(remove_trend=True))):
+                        for pt_ in (1, 2):
+                            cases.append(dict(kind="plot", assign=list(assign), order=list(order), form=form, scramble=False, jit=jit, func=func,
+                                              poly_trend=pt_, n_rows=1 if func == "phase_fold" else 5, lnl=False, **opts))
     # many surveys (offset names dv0_10, dv0_11 sort before dv0_2 as strings): 12 sources, every one a different prior width
     S = 12
     for rot in (0, 5):
@@ -228,7 +307,7 @@ def main():
         "Non-trivial: more than one survey and the surveys are interleaved in time or listed out of order.",
     )
     cases = build_cases(chk.quick, chk.seed)
-    chk.bounds = {"cases": len(cases), "with_likelihood": sum(1 for c in cases if c["lnl"])}
+    chk.bounds = {"cases": len(cases), "with_likelihood": sum(1 for c in cases if c.get("lnl")), "plot_cases": sum(1 for c in cases if c.get("kind") == "plot")}
     chk.merge(core.parallel(shard, core.interleave(cases, core.NPROC * 2)))
     chk.assumptions += ["for dict input the property does not fix which survey is the reference; only the one-to-one partition structure is demanded",
                         "reference marginal likelihood (mc/ref/marginal.py, long double Cholesky)"]
